@@ -209,6 +209,12 @@ def core_shapes() -> List[Shape]:
     return S
 
 
+def single_shape() -> Shape:
+    """one data function reading one variable: the smallest pipeline (conformance scenarios)"""
+    return Shape("single", "f1", {"f1": []}, reads={"f1": ["v1"]}, vtype={"v1": "int"}, dpath={"f1": "/s/p1"},
+                 tags=["single-kept-node"])
+
+
 def vtype_shapes(types: Optional[List[str]] = None) -> List[Shape]:
     """One small pipeline per tracked variable type: a data function reading the variable
     directly, and a kept leaf reading it below a helper."""
